@@ -5,6 +5,7 @@ package c04
 import (
 	"fmt"
 	"math"
+	"math/big"
 	"regexp"
 	"strconv"
 	"strings"
@@ -46,8 +47,27 @@ func (c Case) spell(f float64) string {
 		}
 	case 2:
 		return strconv.FormatFloat(f, 'e', 16, 64)
+	case 3:
+		// the exact decimal expansion of the midpoint between f and its neighbour away from
+		// zero: a text that is no float64 itself and lies exactly between two (what it reads
+		// as is strconv's business: see written())
+		if a := math.Abs(f); a >= 1e-3 && a < 1e18 {
+			g := math.Nextafter(f, math.Copysign(math.Inf(1), f))
+			mid := new(big.Float).SetPrec(200).SetFloat64(f)
+			mid.Add(mid, new(big.Float).SetPrec(200).SetFloat64(g))
+			mid.Quo(mid, big.NewFloat(2))
+			return mid.Text('f', 80)
+		}
 	}
 	return fmtFloat(f)
+}
+
+// written is the float64 the spelt text denotes (for forms 0-2 that is f itself).
+func (c Case) written(f float64) float64 {
+	if w, err := strconv.ParseFloat(c.spell(f), 64); err == nil {
+		return w
+	}
+	return f
 }
 
 func (c Case) pos(i int) int {
@@ -195,7 +215,7 @@ func Check(c Case) (v vcase.Verdict) {
 	}
 	var units []string
 	for i, res := range results {
-		f := math.Float64frombits(c.Bits[i])
+		f := c.written(math.Float64frombits(c.Bits[i]))
 		if len(res.Values) != nvals {
 			v.Failf("line %d has %d measurements, read as %d", i, nvals, len(res.Values))
 			return
@@ -257,6 +277,21 @@ func Check(c Case) (v vcase.Verdict) {
 		if keep, _ := flt.Apply(cl); keep {
 			v.Failf("filter on a different unit kept %v", cl.Values)
 			return
+		}
+		// both names at once select the measurement once; the empty name selects nothing
+		both, _ := benchproc.NewFilter(".unit:(" + strconv.Quote(unit) + " OR " + strconv.Quote(base) + ")")
+		cl = res.Clone()
+		if keep, _ := both.Apply(cl); !keep || len(cl.Values) != 1 || cl.Values[0].Unit != got.Unit {
+			v.Failf("filter .unit:(%q OR %q) on %v %s kept=%v values=%v", unit, base, f, unit, keep, cl.Values)
+			return
+		}
+		for _, q := range []string{`.unit:""`, `.unit:/^$/`, `.unit:("" OR "zz~")`} {
+			empty, _ := benchproc.NewFilter(q)
+			cl = res.Clone()
+			if keep, _ := empty.Apply(cl); keep {
+				v.Failf("filter %s on a line with units %q kept %v", q, units, cl.Values)
+				return
+			}
 		}
 	}
 	// matches taken for all results first and used afterwards: a Match describes its own result
@@ -422,7 +457,7 @@ func Gen(t *rapid.T) Case {
 		c.Bits = append(c.Bits, genBits(t))
 	}
 	c.DupMeta = rapid.Bool().Draw(t, "dupmeta")
-	c.Form = rapid.IntRange(0, 2).Draw(t, "form")
+	c.Form = rapid.IntRange(0, 3).Draw(t, "form")
 	if vcase.OneIn(t, 6, "padded") {
 		// long lines: the per-measurement bookkeeping works in words of 32 and 64
 		c.Pad = rapid.SampledFrom([]int{1, 5, 29, 30, 31, 32, 33, 61, 62, 63, 64, 65, 100}).Draw(t, "pad")
